@@ -23,7 +23,7 @@ one canonical form of constructs that maintainers routinely rewrite into each ot
   S7  T i = a; while (c(i)) { body; ++i; } (no continue, i dead afterwards) -> for (T i = a; c(i); ++i) body
   S4  a void function body / a loop body that ends with `if (a && b) { X }` -> `if (!a) return / continue; if (!b) ...; X` (guard-clause form)
   S8  if (a > b) a = b; -> a = min(a, b); if (a < b) a = b; -> a = max(a, b)   (integers)
-  E11 x * 2^K -> x << K, unsigned x / 2^K -> x >> K ;  E12 2 * i -> i * 2 ;  E14 !(a && b) -> !a || !b ;  E13 X.empty() -> X.size() == 0 (std containers) ;  S13b if (c) f |= v; -> f |= c ? v : 0 ;  S16 T x; x = e; -> T x = e ;  S15 pointer cursor over [B, B+N) -> index loop over B ;  S10 if (c) x = a; else x = b; -> x = c ? a : b ;  S13 if (c) b = true; -> b |= c ; if (c) b = false; -> b &= !c  (bool b)
+  E11 x * 2^K -> x << K, unsigned x / 2^K -> x >> K ;  E12 2 * i -> i * 2 ;  E15 const integral local initialised with a literal / named constant reads as that value ;  E14 !(a && b) -> !a || !b ;  E13 X.empty() -> X.size() == 0 (std containers) ;  S13b if (c) f |= v; -> f |= c ? v : 0 ;  S16 T x; x = e; -> T x = e ;  S15 pointer cursor over [B, B+N) -> index loop over B ;  S10 if (c) x = a; else x = b; -> x = c ? a : b ;  S13 if (c) b = true; -> b |= c ; if (c) b = false; -> b &= !c  (bool b)
   S14 `T x = a; if (c) x = b;` -> `T x = c ? b : a;`   (a a plain read)
   S12 `if (ok) return; throw X;` at the end of a void function -> `if (!ok) throw X;`
   S5  `while (c) body` and `for (; c; ) body` are both exported as For nodes with empty init / increment
@@ -1078,10 +1078,62 @@ def nest_guards(stmts, kind="Return"):
     return out
 
 
+def _propagate_const_literals(body):
+    """E15: a `const` integral local whose initialiser is an integer / bool literal or a named constant (an enumerator, a static
+    const with a known value) reads as that value: `const int max_sd = 3; if (x > max_sd)` is `if (x > 3)`; `const uint8_t lo =
+    hll_constants::MIN_LOG_K;` is the named constant itself.  The declaration stays."""
+    lits = {}
+
+    def dv(n):
+        if n.get("k") == "Decl":
+            for v in n.get("vars", []):
+                t = (v.get("t") or "")
+                if "d" not in v or not v.get("const") or v.get("ref") or "*" in t or v.get("init") is None:
+                    continue
+                if not any(x in t for x in ("int", "long", "short", "char", "bool", "size_t", "uint", "unsigned")) or any(x in t for x in ("float", "double", "std::", "vector")):
+                    continue
+                i = _strip(v["init"])
+                while isinstance(i, dict) and i.get("k") == "Construct" and len(i.get("args", [])) == 1:
+                    i = _strip(i["args"][0])
+                if not isinstance(i, dict):
+                    continue
+                if i.get("k") in ("Int", "Bool") or (i.get("k") in ("Ref", "Member") and isinstance(i.get("v"), int) and (i.get("dk") in ("global", "enum") or i.get("isstatic"))):
+                    # the value must survive the conversion to the local's type unchanged
+                    val = i.get("v") if i.get("k") != "Bool" else int(bool(i.get("b")))
+                    sz = v.get("sz") or 8
+                    if isinstance(val, int) and 0 <= val < (1 << (8 * min(sz, 8) - 1)):
+                        lits[v["d"]] = (i, v)
+    _walk(body, dv)
+    if not lits:
+        return body
+    # a local whose address is taken or that is written (cannot be, it is const) is left alone
+    addr = set()
+    _walk(body, lambda n: addr.add(_strip(n.get("e")).get("d")) if n.get("k") == "Un" and n.get("op") == "&" and isinstance(_strip(n.get("e")), dict) and _strip(n["e"]).get("k") == "Ref" else None)
+    import copy
+
+    def sub(n):
+        if isinstance(n, list):
+            return [sub(x) for x in n]
+        if not isinstance(n, dict):
+            return n
+        if n.get("k") == "Ref" and n.get("d") in lits and n["d"] not in addr:
+            i, v = lits[n["d"]]
+            r = copy.deepcopy(i)
+            r["loc"] = n.get("loc")
+            if r.get("k") in ("Int", "Bool"):
+                r["t"] = (n.get("t") or "").replace("const ", "")
+                r["sz"] = n.get("sz")
+            return r
+        return {k: sub(v2) for k, v2 in n.items()}
+    return sub(body)
+
+
 def norm_function(fn):
     body = fn.get("body")
     if not isinstance(body, dict):
         return fn
+    if not LIGHT[0]:
+        body = _propagate_const_literals(body)
     r = norm_stmt(body)
     body = r[0] if len(r) == 1 else {"k": "Block", "s": r, "loc": body.get("loc")}
     if LIGHT[0]:
